@@ -17,7 +17,9 @@ JudgeCall(e) ==
       bytesOk == wf /\ (exact => e.bytes = want)
       m     == MatchAcc(e.fn)
       accOk == exact =>
-                 /\ (e.fn # "Tune" => e.acc[m].ok /\ e.acc[m].out = ExpOut(e.fn, e.args))
+                 /\ (e.fn # "Tune" => e.acc[m].ok /\ e.acc[m].out = ExpOut(e.fn, e.args)
+                                       \* each value fetched by a call of its own (the other pointers nil)
+                                       /\ (e.acc[m].single # <<>> => e.acc[m].single = ExpOut(e.fn, e.args)))
                  /\ \A x \in TypeSpecific : (x # m \/ e.fn = "Tune") => ~e.acc[x].ok
       loopOk == exact => e.loop = <<e.bytes>>
   IN [ok |-> e.panic = "" /\ bytesOk /\ accOk /\ loopOk,
